@@ -229,6 +229,12 @@ def has_cycle(an):
 NONE = ("A", ("adt", "core::option::Option", 0), ())
 
 
+def no_drop_glue(an, facts):
+    """The path runs under needs_drop::<T>() == false for the element type: destroying an element is a no-op there."""
+    T = tstr([x for x in an.body["impl_self"]["args"] if x.get("k") != "region"][0])
+    return any(f[0] == "b" and f[1][0] == "needs_drop" and f[1][1] == T and f[2] is False for f in facts)
+
+
 def nth_path_spec(an, it, name, path, r):
     """Decide one return path of nth / nth_back against the deque specification.  Returns (status, detail)."""
     from ..rules import tiling, is_view, is_panic_plumbing
@@ -289,7 +295,13 @@ def nth_path_spec(an, it, name, path, r):
     pf = an.poly_facts(fs)
     ln = hi - lo
 
+    nodrop = no_drop_glue(an, fs)
+
     def tiles(dl, start, count):
+        if nodrop:
+            # no destructor to run: what matters is that nothing outside the skipped range is destroyed
+            ok_in = all(prove((">=", o - start * S), pf) and prove((">=", (start + count) * S - o - z), pf) for o, z in dl)
+            return ok_in, "element type has no drop glue on this path (needs_drop == false): destroyed ranges, if any, lie inside the skipped range: %s" % ok_in
         if not dl:
             return prove(("==", count), pf), "nothing dropped, required count %r == 0" % (count,)
         st, det = tiling(an, [(o - start * S, z) for o, z in dl], count * S, fs)
@@ -387,6 +399,12 @@ def ownership_path(an, it, name, path, r):
     if deleg is not None and rv != deleg.ret:
         return REFUTED, "the delegation's result is not what is returned"
     claimed = (cur[it.i0] * S, (cur[it.i1] - cur[it.i0]) * S)
+    if no_drop_glue(an, fs):
+        # nothing needs destroying: the still-claimed range must stay inside the entry range and exclude every moved-out / destroyed piece
+        ok = prove((">=", cur[it.i0] - lo), pf) and prove((">=", hi - cur[it.i1]), pf) and prove((">=", cur[it.i1] - cur[it.i0]), pf)
+        for o, z in pieces:
+            ok = ok and prove((">=", o - lo * S), pf) and prove((">=", hi * S - o - z), pf) and (prove((">=", cur[it.i0] * S - o - z), pf) or prove((">=", o - cur[it.i1] * S), pf))
+        return (PROVED if ok else REFUTED), "no drop glue on this path (needs_drop == false): claimed range [%r, %r) within the entry range and disjoint from the %d moved-out/destroyed piece(s): %s" % (cur[it.i0], cur[it.i1], len(pieces), ok)
     allp = [(o - lo * S, z) for o, z in pieces + [claimed]]
     # empty pieces may sit anywhere: drop those that are provably empty
     allp = [q for q in allp if not prove(("==", q[1]), pf)]
